@@ -55,12 +55,13 @@ theorem spellings_agree :
     toBitOrder (.text ['l', 'i', 't', 't', 'l', 'e']) = toBitOrder (.enum .little) ∧
     optOrder none = .ok .big := by decide
 
-/-- an unknown order name on a non-empty array: both operations return the error, whatever the axis -/
+/-- an unknown order name: both operations return the error, whatever the array (empty ones included: the order is
+parsed before the empty-array shortcut, commit 97c65b7), the axis and the count -/
 theorem bad_order_rejected (along : Along) (a : Arr Nat) (axis count : Option Int) (s : List Char)
-    (hne : a.isEmpty = false) (h : ∀ o, (s, o) ∉ bitOrderTable) :
+    (h : ∀ o, (s, o) ∉ bitOrderTable) :
     unpackBits along a axis count (some (.text s)) = .err .ParameterError ∧
     packBits along a axis (some (.text s)) = .err .ParameterError := by
-  simp [unpackBits, packBits, hne, optOrder, toBitOrder_unknown s h]
+  simp [unpackBits, packBits, optOrder, toBitOrder_unknown s h]
 
 /-! ## one byte -/
 
@@ -181,11 +182,11 @@ theorem pack_unpack_flat_arr (along : Along) (a : Arr Nat) (ord : Option Spellin
     (unpackBits along a none none ord >>= fun u => packBits along u none ord) = .ok (Arr.flat a.elems) := by
   have hl := lane_roundtrip o a h
   simp only [unpackLane, hne] at hl
-  simp only [unpackBits, hne, ho]
+  simp only [unpackBits, hne, ho, axisCheck]
   simp only [Bool.false_eq_true, if_false] at hl ⊢
   rw [unpack_flat_arr] at hl ⊢
   simp only [Res.bind_ok] at hl ⊢
-  simp only [packBits, ho]
+  simp only [packBits, ho, axisCheck]
   simp only [packLane] at hl
   exact hl
 
@@ -249,7 +250,9 @@ theorem pack_unpack_axis_of_lifts (along : Along) (a : Arr Nat) (ax : Int) (ord 
     (fun l hl => by
       obtain ⟨r, _, hr2, hr3⟩ := packLane_flat o l (hne' l _ (by omega) hl)
       exact ⟨_, hr3, by simp only [Arr.flat]; rw [hr2, hl]; omega⟩)
-  simp only [unpackBits, hne, ho, hu, Res.bind_ok, packBits, hue, hnd, Bool.false_eq_true, if_false]
+  rw [unpackBits_axis along a ax none ord o ho hk hne, hu]
+  simp only [Res.bind_ok]
+  rw [packBits_axis along u ax ord o ho (by rw [hnd]; exact hk) hue, hnd]
   exact hback
 
 /-- a well-formed array without a zero-length axis is not empty -/
@@ -284,7 +287,7 @@ theorem unpack_axis_at (a : Arr Nat) (ax : Int) (ord : Option Spelling) (o : Bit
   obtain ⟨u, hu, hs, huwf, hget⟩ := applyAlongAxis_spec a 0 0 (normalizeAxis a.ndim ax)
     (8 * a.shape.getD (normalizeAxis a.ndim ax) 0) (unpackLane o none) hwf hk hnz
     (fun l hl => ⟨_, unpackLane_flat o l (hne' l hl), by simp [Arr.flat, unpackFlat_length, hl]⟩)
-  refine ⟨u, by simp only [unpackBits, hne, ho, Bool.false_eq_true, if_false]; exact hu, hs, huwf, ?_⟩
+  refine ⟨u, by rw [unpackBits_axis alongPipe a ax none ord o ho hk hne]; exact hu, hs, huwf, ?_⟩
   intro c hc
   obtain ⟨y, hy1, hy2⟩ := hget c hc
   have hL : (laneOf a (normalizeAxis a.ndim ax) c).length = a.shape.getD (normalizeAxis a.ndim ax) 0 :=
@@ -310,7 +313,7 @@ theorem pack_axis_at (a : Arr Nat) (ax : Int) (ord : Option Spelling) (o : BitOr
     (fun l hl => by
       obtain ⟨r, _, hr2, hr3⟩ := packLane_flat o l (hne' l hl)
       exact ⟨_, hr3, by simp only [Arr.flat]; rw [hr2, hl]⟩)
-  refine ⟨u, by simp only [packBits, hne, ho, Bool.false_eq_true, if_false]; exact hu, hs, huwf, ?_⟩
+  refine ⟨u, by rw [packBits_axis alongPipe a ax ord o ho hk hne]; exact hu, hs, huwf, ?_⟩
   intro c hc
   obtain ⟨y, hy1, hy2⟩ := hget c hc
   have hL : (laneOf a (normalizeAxis a.ndim ax) c).length = a.shape.getD (normalizeAxis a.ndim ax) 0 :=
@@ -320,12 +323,24 @@ theorem pack_axis_at (a : Arr Nat) (ax : Int) (ord : Option Spelling) (o : BitOr
   cases hy1
   exact ⟨r, hr1, hy2⟩
 
-/-- an axis outside the rank is an error value in both operations (pipeline model) -/
-theorem axis_out_of_range (a : Arr Nat) (ax : Int) (count : Option Int) (ord : Option Spelling) (o : BitOrder)
-    (ho : optOrder ord = .ok o) (hne : a.isEmpty = false) (hk : a.ndim ≤ normalizeAxis a.ndim ax) :
-    unpackBits alongPipe a (some ax) count ord = .err .AxisOutOfBounds ∧
-    packBits alongPipe a (some ax) ord = .err .AxisOutOfBounds := by
-  simp [unpackBits, packBits, hne, ho, alongPipe, applyAlongAxis_axis_err _ _ _ _ _ hk]
+/-- an axis outside the rank is an error value in both operations — for every array, empty ones included, and
+whatever `apply_along_axis` is: the axis is validated before the empty-array shortcut and before any lane work
+(commit 97c65b7) -/
+theorem axis_out_of_range (along : Along) (a : Arr Nat) (ax : Int) (count : Option Int) (ord : Option Spelling)
+    (o : BitOrder) (ho : optOrder ord = .ok o) (hk : a.ndim ≤ normalizeAxis a.ndim ax) :
+    unpackBits along a (some ax) count ord = .err .AxisOutOfBounds ∧
+    packBits along a (some ax) ord = .err .AxisOutOfBounds := by
+  simp only [unpackBits, packBits, ho, axisCheck_err _ _ hk, and_self]
+
+/-- the empty-array shortcut, reached only with an accepted order and an axis inside the rank (or the flat form):
+both operations answer `Array::empty()` -/
+theorem empty_after_validation (along : Along) (a : Arr Nat) (axis count : Option Int) (ord : Option Spelling)
+    (o : BitOrder) (ho : optOrder ord = .ok o) (he : a.isEmpty = true)
+    (hax : ∀ ax, axis = some ax → normalizeAxis a.ndim ax < a.ndim) :
+    unpackBits along a axis count ord = .ok ⟨[], [0]⟩ ∧ packBits along a axis ord = .ok ⟨[], [0]⟩ := by
+  cases axis with
+  | none => simp [unpackBits, packBits, ho, axisCheck, he]
+  | some ax => simp [unpackBits, packBits, ho, axisCheck_ok _ _ (hax ax rfl), he]
 
 /-- **round trip along every axis for the reference lane semantics** -/
 theorem pack_unpack_axis_ref (a : Arr Nat) (ax : Int) (ord : Option Spelling) (o : BitOrder)
@@ -346,7 +361,7 @@ theorem unpack_axis_ref (a : Arr Nat) (ax : Int) (ord : Option Spelling) (o : Bi
       .ok ⟨unlanes ((lanes a.elems O n I).map (unpackFlat o)) O (8 * n) I, a.shape.set k (8 * n)⟩ := by
   intro k O n I
   have hn : 0 < n := axis_len_pos a _ hwf hk hne
-  simp only [unpackBits, hne, ho, Bool.false_eq_true, if_false]
+  rw [unpackBits_axis alongRef a ax none ord o ho hk hne]
   exact alongRef_ok a k hwf hk hne (unpackLane o none) (unpackFlat o) (8 * n) (fun l hl => by
     have hl' : l.length = n := hl
     have hl0 : l ≠ [] := fun e => by have h0 : l.length = 0 := (by simp [e]); omega
@@ -355,12 +370,13 @@ theorem unpack_axis_ref (a : Arr Nat) (ax : Int) (ord : Option Spelling) (o : Bi
     simp only [unpackLane, he, Bool.false_eq_true, if_false]
     simpa [Arr.flat] using unpack_flat_arr o (Arr.flat l))
 
-/-- an axis outside the rank is an error value in both operations (reference lane semantics) -/
+/-- an axis outside the rank is an error value in both operations (reference lane semantics; instance of
+`axis_out_of_range`, kept under its old name) -/
 theorem axis_out_of_range_ref (a : Arr Nat) (ax : Int) (count : Option Int) (ord : Option Spelling) (o : BitOrder)
-    (ho : optOrder ord = .ok o) (hne : a.isEmpty = false) (hk : a.ndim ≤ normalizeAxis a.ndim ax) :
+    (ho : optOrder ord = .ok o) (hk : a.ndim ≤ normalizeAxis a.ndim ax) :
     unpackBits alongRef a (some ax) count ord = .err .AxisOutOfBounds ∧
-    packBits alongRef a (some ax) ord = .err .AxisOutOfBounds := by
-  simp [unpackBits, packBits, hne, ho, alongRef, hk]
+    packBits alongRef a (some ax) ord = .err .AxisOutOfBounds :=
+  axis_out_of_range alongRef a ax count ord o ho hk
 
 /-! ## the `count` argument (repaired negative arm) -/
 
@@ -468,6 +484,10 @@ example : (unpackBits alongRef ⟨[1, 200, 37, 255], [2, 2]⟩ (some 0) none (so
 example : unpackFlatArr .big (some (-3)) ⟨[2, 3, 5], [3]⟩ = .ok (Arr.flat [0, 0, 0, 0, 0, 0, 1, 0, 0, 0, 0, 0, 0, 0, 1, 1, 0, 0, 0, 0, 0]) := by decide
 example : unpackFlatArr .big (some (-25)) ⟨[2, 3, 5], [3]⟩ = .err .OutOfBounds := by decide
 example : toBitOrder (.text ['B', 'i', 'g']) = .err .ParameterError := by decide
+-- empty arrays: unknown order / axis outside the rank are refused, an accepted call gives the empty 1-D array
+example : packBits alongRef ⟨[], [0]⟩ (some 1) (some (.enum .little)) = .err .AxisOutOfBounds := by decide
+example : unpackBits alongRef ⟨[], [0, 2]⟩ none none (some (.text ['b', 'o', 'g'])) = .err .ParameterError := by decide
+example : unpackBits alongRef ⟨[], [2, 0]⟩ (some (-1)) none none = .ok ⟨[], [0]⟩ := by decide
 example : binaryRepr 10 = ['1', '0', '1', '0'] ∧ binaryRepr 0 = ['0'] := by decide
 example : binaryReprSigned 8 (-3) = ['1', '1', '1', '1', '1', '1', '0', '1'] := by decide
 example : (-(2 ^ (8 - 1) : Int) ≤ -128) ∧ ((-128 : Int) < 2 ^ (8 - 1)) := by decide
